@@ -10,6 +10,8 @@ TAGREAD   in gr_str_to_tag every read str[j] happens only where strlen(str) >= j
 TAGNORM   shared with C18 (rules/tagnorm.py).
 """
 from .cfg import int_type
+import re
+from . import dom
 from .facts import AnalysisBroken
 from . import tagnorm
 
@@ -43,6 +45,9 @@ def _acyclic_paths(fn, start, limit=4096):
 
 
 # ------------------------------------------------------------------------------------- TAGWRITE
+STRING_FUNCTIONS = {'strncpy', 'strcpy', 'stpcpy', 'stpncpy', 'strcat', 'strncat', 'strlcpy', 'sprintf', 'snprintf'}
+
+
 def tagwrite(run, fx):
     fn = fx.one('gr_tag_to_str')
     params = fn.f['params']
@@ -59,6 +64,7 @@ def tagwrite(run, fx):
         val = {}           # element id -> abstract value
         stores = {}        # offset -> rhs node
         null_path = False
+        string_fn = None
         for bi, b in enumerate(path):
             for e in fn.blocks[b]['el']:
                 k = e['k']
@@ -108,6 +114,11 @@ def tagwrite(run, fx):
                 elif k in ('CallExpr', 'CXXMemberCallExpr'):
                     for a in e.get('args', []):
                         if isinstance(a, int) and val.get(a, ('x',))[0] in ('ptr', 'var'):
+                            if (e.get('fq') or '').split('::')[-1] in STRING_FUNCTIONS:
+                                # decidable without knowing more: a C string function stops at (or pads from) the first zero byte,
+                                # and a tag may contain zero bytes anywhere
+                                string_fn = (e, e.get('fq'))
+                                continue
                             raise AnalysisBroken('gr_tag_to_str: buffer pointer escapes into %s at %s'
                                                  % (e.get('fq'), fn.loc(e)))
             # branch direction: is this a null test on str?
@@ -129,6 +140,12 @@ def tagwrite(run, fx):
                 run.held('TAGWRITE', 'null-path', fn.where(), 'no store on the path where str is null', False)
             continue
         nonnull_paths += 1
+        if string_fn is not None:
+            e_, q_ = string_fn
+            run.violated('TAGWRITE', 'bytes through %s' % q_, fn.loc(e_), 'gr_tag_to_str hands the caller\'s buffer to %s: a C string function stops copying at the first zero byte '
+                         '(and strncpy zero-fills from there), but a tag is four arbitrary bytes -- a tag with a zero byte before a non-zero one '
+                         '(e.g. 0x00000420) is written wrongly / incompletely' % q_)
+            continue
         offs = sorted(stores)
         for o in offs:
             for (e, rhs) in stores[o]:
@@ -210,7 +227,59 @@ def _tag_shift(fn, rhs, tagv):
 def tagread(run, fx):
     fn = fx.one('gr_str_to_tag')
     strv = fn.f['params'][0]['vid']
+    # the string handed to a reader of fixed width (be::peek<T> / be::read<T> / memcpy of a constant length): decidable at once
+    fixed = 0
+    for _, e in fn.elements():
+        if e['k'] not in ('CallExpr', 'CXXMemberCallExpr') or not e.get('args'):
+            continue
+        q = (e.get('fq') or '')
+        base = q.split('<')[0].split('::')[-1]
+        if base == 'strlen':
+            continue
+        def _mentions(a):
+            # str itself (not merely strlen(str)) appears in the argument
+            st_ = [fn.N(a)]
+            while st_:
+                x = st_.pop()
+                if x['k'] in ('CallExpr', 'CXXMemberCallExpr') and (x.get('fq') or '').split('::')[-1] == 'strlen':
+                    continue
+                if x['k'] == 'DeclRefExpr' and x.get('vid') == strv:
+                    return True
+                for key in ('c', 'args'):
+                    for y in x.get(key) or []:
+                        if y is not None:
+                            st_.append(fn.N(y))
+            return False
+        uses = [a for a in e['args'] if a is not None and _mentions(a)]
+        if not uses:
+            continue
+        width = None
+        if base in ('peek', 'read') and '::be::' in '::' + q or q.startswith('be::'):
+            width = {8: 1, 16: 2, 32: 4, 64: 8}.get((int_type(e.get('t')) or (None,))[0])
+        elif base in ('memcpy', 'memmove') and len(e['args']) == 3:
+            width = dom._cval(fn, e['args'][2])
+        if width is None:
+            raise AnalysisBroken('gr_str_to_tag: the string is handed to %s at %s (unknown reader)' % (q, fn.loc(e)))
+        fixed += 1
+        # lower bound on strlen(str) established on every path to the call
+        lb = 0
+        for f in dom.facts_at(fn, e['i']):
+            m = re.match(r'^(?:(?:\w+::)*min\()?strlen\(str\)(?:, (\d+)\))?$', f[0].replace('(unsigned long)', '').replace('size_t', '').strip())
+            if m and f[2].lstrip('-').isdigit():
+                k_ = int(f[2])
+                if f[1] in ('==', '>='):
+                    lb = max(lb, k_)
+                elif f[1] == '>':
+                    lb = max(lb, k_ + 1)
+        inst = 'read str[0..%d] through %s' % (width - 1, base)
+        if lb >= width - 1:
+            run.held('TAGREAD', inst, fn.loc(e), 'dominated by strlen(str) >= %d' % lb)
+        else:
+            run.violated('TAGREAD', inst, fn.loc(e), '%s reads %d bytes of the string where only strlen(str) >= %d is known: for a string shorter than %d characters '
+                         'bytes beyond the terminating NUL are read (the header says at most the first 4 characters are read)' % (q, width, lb, width - 1))
     sw = [b for b in fn.blocks if (fn.blocks[b].get('term') or {}).get('k') == 'SwitchStmt']
+    if fixed and not sw:
+        return
     if len(sw) != 1:
         raise AnalysisBroken('gr_str_to_tag: expected exactly one switch, found %d (rule knows the switch form only)' % len(sw))
     sw = sw[0]
